@@ -29,28 +29,29 @@ type Violation struct {
 }
 
 type M struct {
-	mu         sync.Mutex
-	Property   string
-	Part       string
-	tier       string
-	start      time.Time
-	evals      int64
-	classes    map[string]int64
-	counters   map[string]int64
-	notes      map[string]interface{}
-	samples    []interface{}
-	maxSamples int
-	viol       map[string]*Violation
-	violOrder  []string
-	violTotal  int
-	require    map[string]int64
-	assume     []string
-	rule       string
-	exhaustive bool
-	outDir     string
-	replay     map[string]interface{}
-	liFiles    map[int]*os.File
-	inconcl    []string
+	mu            sync.Mutex
+	Property      string
+	Part          string
+	tier          string
+	start         time.Time
+	evals         int64
+	classes       map[string]int64
+	counters      map[string]int64
+	notes         map[string]interface{}
+	samples       []interface{}
+	maxSamples    int
+	viol          map[string]*Violation
+	violOrder     []string
+	violTotal     int
+	require       map[string]int64
+	assume        []string
+	rule          string
+	exhaustive    bool
+	outDir        string
+	replay        map[string]interface{}
+	liFiles       map[int]*os.File
+	inconcl       []string
+	distinctExtra int64
 }
 
 func New(property, part string) *M {
@@ -104,6 +105,14 @@ func (m *M) Class(sig string) {
 	m.mu.Unlock()
 }
 
+// DistinctN adds n cases that are distinct by construction (an enumeration that yields every case once),
+// without storing a signature for each; use Class for the coarse signatures shown in the evidence.
+func (m *M) DistinctN(n int64) {
+	m.mu.Lock()
+	m.distinctExtra += n
+	m.mu.Unlock()
+}
+
 func (m *M) Classf(format string, a ...interface{}) { m.Class(fmt.Sprintf(format, a...)) }
 
 func (m *M) Count(name string, n int64) {
@@ -147,8 +156,8 @@ func (m *M) Inconclusive(reason string) {
 	m.mu.Unlock()
 }
 
-func (m *M) Assume(s string)  { m.mu.Lock(); m.assume = append(m.assume, s); m.mu.Unlock() }
-func (m *M) Rule(s string)    { m.mu.Lock(); m.rule = s; m.mu.Unlock() }
+func (m *M) Assume(s string)   { m.mu.Lock(); m.assume = append(m.assume, s); m.mu.Unlock() }
+func (m *M) Rule(s string)     { m.mu.Lock(); m.rule = s; m.mu.Unlock() }
 func (m *M) Exhaustive(b bool) { m.mu.Lock(); m.exhaustive = b; m.mu.Unlock() }
 
 // Require declares a counter (or "class:<prefix>") that must reach min, else the
@@ -313,7 +322,7 @@ func (m *M) Finish(t testing.TB) {
 	m.mu.Lock()
 	defer m.mu.Unlock()
 	r := result{Property: m.Property, Part: m.Part, Tier: m.tier, Seed: int64(vrand.Seed()), Evaluations: m.evals,
-		Distinct: len(m.classes), Counters: m.counters, Notes: m.notes, Samples: m.samples, ViolTotal: m.violTotal,
+		Distinct: len(m.classes) + int(m.distinctExtra), Counters: m.counters, Notes: m.notes, Samples: m.samples, ViolTotal: m.violTotal,
 		Assume: m.assume, Rule: m.rule, Exhaustive: m.exhaustive, WallS: time.Since(m.start).Seconds(), Complete: true}
 	if r.Samples == nil {
 		r.Samples = []interface{}{}
